@@ -33,10 +33,13 @@ EXTENDS Integers, Sequences, FiniteSets, TLC
 CONSTANTS
   MaxNf,                     \* max. number of cookie + placeholder fields of a request / cookies of a response
   Roles,                     \* subset of {"req", "resp", "cookie"}
-  PlaceholderTypedAsCookie,  \* TRUE = the code as written (CookiePlaceholder.pack sets extCookie); C11/C14's finding, irrelevant here
+  PlaceholderTypedAsCookie,  \* FALSE = the code as it is now (placeholders typed 0x304); TRUE = before the repair of C11/C14's finding
   UidChecked,                \* TRUE = as written; FALSE = fault switch (ProcessResponse without the uid comparison)
   AdWhole,                   \* TRUE = as written (associated data buf[:pos] in pack and b[:Auth.pos] in authenticate);
                              \* FALSE = fault switch (both sides use the NTP header only)
+  StopAtAuth,                \* TRUE = as written (DecodePacket's loop ends at the authenticator);
+                             \* FALSE = fault switch (fields after the authenticator are parsed too)
+  CtLenExact,                \* TRUE = as written (make(cipherTextLen), zero filled); FALSE = fault switch (clamped to what is left)
   LenChoices(_),             \* replacement values tried for a length cell (argument: the original value)
   TruncMax                   \* how many cells a truncation may remove
 
@@ -198,7 +201,7 @@ Dec0 == [uid |-> << >>, hasU |-> FALSE, cookies |-> << >>, nph |-> 0, hasA |-> F
          nonce |-> << >>, ct |-> << >>, hang |-> FALSE]
 RECURSIVE DecWalk(_, _, _)
 DecWalk(b, pos, a) ==
-  IF a.hasA \/ Len(b) - pos < MinField THEN a
+  IF (StopAtAuth /\ a.hasA) \/ Len(b) - pos < MinField THEN a
   ELSE LET ty == TypeOf(b[pos + 1])
            n  == LenOf(b[pos + 2])
            a1 == IF ty = EXT_UID THEN [a EXCEPT !.uid = Take(b, pos + 2, ValueLen(n, b)), !.hasU = TRUE]
@@ -209,11 +212,13 @@ DecWalk(b, pos, a) ==
                       LET nl == LenOf(b[pos + 3])
                           cl == LenOf(b[pos + 4])
                           copied == Min2(nl, Len(b) - (pos + 4))
+                          left == Len(b) - (pos + 4 + copied)
+                          cl2 == IF CtLenExact \/ cl <= left THEN cl ELSE left
                       IN [a EXCEPT !.hasA = TRUE, !.apos = pos,
                                    !.nonce = Take(b, pos + 4, nl),
-                                   !.ct = Take(b, pos + 4 + copied, cl)]
+                                   !.ct = Take(b, pos + 4 + copied, cl2)]
                  ELSE a
-       IN IF n = 0 /\ ~a1.hasA THEN [a1 EXCEPT !.hang = TRUE]        \* pos += Length - 4 undoes pos += 4
+       IN IF n = 0 /\ ~(StopAtAuth /\ a1.hasA) THEN [a1 EXCEPT !.hang = TRUE]        \* pos += Length - 4 undoes pos += 4
           ELSE DecWalk(b, pos + n, a1)
 
 \* Packet.authenticate
@@ -232,31 +237,39 @@ Authenticate(b, key, d) ==
 \* What the receiver reports.  out: accepted / rejected / panic / hang;
 \* opened, key, sc: the cookie part (did the cookie open, under which provider key, to what);
 \* stored: cookies handed to Fetcher.StoreCookie.
-Rcv(out, opened, key, sc, stored) == [out |-> out, opened |-> opened, key |-> key, sc |-> sc, stored |-> stored]
-Rej(out) == Rcv(out, FALSE, 0, 0, 0)
+\* cok: the cookies stored (client) / the cookie and placeholder fields counted for the reply (server) are
+\* exactly the authenticated ones (nothing that follows the authenticator is taken over).
+Rcv(out, opened, key, sc, stored, cok) ==
+  [out |-> out, opened |-> opened, key |-> key, sc |-> sc, stored |-> stored, cok |-> cok]
+Rej(out) == Rcv(out, FALSE, 0, 0, 0, TRUE)
 
 \* server_ip.go: DecodePacket, FirstCookie, Decode, provider.Get, Decrypt, ProcessRequest(buf, serverCookie.C2S)
-Server(b, provider) ==
+Server(b, provider, n) ==
   LET d == DecWalk(b, NtpCells, Dec0) IN
   IF d.hang THEN Rej("hang")
   ELSE IF ~d.hasU \/ ~d.hasA THEN Rej("rejected")
   ELSE IF d.cookies = << >> THEN Rej("rejected")
   ELSE LET c == OpenCookie(d.cookies[1], provider) IN
        IF c.res # "ok" THEN Rej(c.res)
-       ELSE Rcv(Authenticate(b, c.sc.c2s, d).res, TRUE, c.key, ScId(c.sc), 0)
+       ELSE Rcv(Authenticate(b, c.sc.c2s, d).res, TRUE, c.key, ScId(c.sc), 0, Len(d.cookies) + d.nph = n)
 
 \* client_ip.go: DecodePacket, ProcessResponse(buf, S2cKey, fetcher, pkt, requestID)
-Client(b, key, reqid) ==
+\* ProcessResponse stores pkt.Cookies: whatever DecodePacket collected, then what authenticate decrypted
+Client(b, key, reqid, genuine) ==
   LET d == DecWalk(b, NtpCells, Dec0) IN
   IF d.hang THEN Rej("hang")
   ELSE IF ~d.hasU \/ ~d.hasA THEN Rej("rejected")
   ELSE IF UidChecked /\ d.uid # reqid THEN Rej("rejected")
-  ELSE LET r == Authenticate(b, key, d) IN Rcv(r.res, FALSE, 0, 0, Len(r.cookies))
+  ELSE LET r == Authenticate(b, key, d)
+           st == d.cookies \o r.cookies
+       IN IF r.res = "accepted"
+          THEN Rcv(r.res, FALSE, 0, 0, Len(st), Len(st) = Len(genuine) /\ \A i \in DOMAIN st : st[i] = genuine[i])
+          ELSE Rcv(r.res, FALSE, 0, 0, 0, TRUE)
 
 \* a cookie on its own, as the server opens it
 CookieRcv(b, provider) ==
   LET c == OpenCookie(b, provider)
-  IN IF c.res = "ok" THEN Rcv("accepted", TRUE, c.key, ScId(c.sc), 0) ELSE Rej(c.res)
+  IN IF c.res = "ok" THEN Rcv("accepted", TRUE, c.key, ScId(c.sc), 0, TRUE) ELSE Rej(c.res)
 
 (***************************************************************************)
 (* Layout: which region of the packet a cell belongs to.                   *)
@@ -299,7 +312,7 @@ NoG == G("-", 0, "-")
 \* truth: what was really done to the packet, in the words of the property statement
 Truth(key, dir, uid, touched, ckey, csc) ==
   [key |-> key, dir |-> dir, uid |-> uid, touched |-> touched, ckey |-> ckey, csc |-> csc]
-Ck0 == [opened |-> FALSE, key |-> 0, sc |-> 0]
+Ck0 == [opened |-> FALSE, key |-> 0, sc |-> 0, cok |-> TRUE]
 
 SenderKinds(rl) ==
   IF rl = "req" THEN {"none", "swapkey", "swapdir", "foreignkey"}
@@ -326,9 +339,9 @@ SenderTruth(rl, kind) ==
   Truth(kind # "swapkey", kind # "swapdir", kind # "replay", {},
         IF kind = "foreignkey" THEN ForeignServerKey ELSE Provider[1], 1)
 
-Receive(rl, b) ==
-  IF rl = "req" THEN Server(b, Provider)
-  ELSE IF rl = "resp" THEN Client(b, ExportKeys(1, "s2c"), Uid(1))
+Receive(rl, n, b) ==
+  IF rl = "req" THEN Server(b, Provider, n)
+  ELSE IF rl = "resp" THEN Client(b, ExportKeys(1, "s2c"), Uid(1), FreshCookies(n))
   ELSE CookieRcv(b, Provider)
 
 Init ==
@@ -396,9 +409,24 @@ SwapCookie ==                    \* another session's valid cookie, written over
   /\ mut' = Mut("swapcookie", G("cookieField", 1, "body"), "-")
   /\ truth' = [truth EXCEPT !.touched = {"cookieField"}, !.csc = 2]
 
+\* Whole extension fields appended after the authenticator, to a genuine packet or to a genuine response to
+\* ANOTHER request of the same association (replay): a uid field carrying the outstanding request's id
+\* (another one for a request), a cookie field with a valid cookie of another session.
+TrailField(rl, name) ==
+  IF name = "appenduid" THEN Field(EXT_UID, IF rl = "resp" THEN Uid(1) ELSE Uid(2))
+  ELSE Field(EXT_COOKIE, EncCookie(1, Provider[1], 60, SC(2)))
+AppendField ==
+  /\ mut.kind \in {"none", "replay"} /\ role \in {"req", "resp"}
+  /\ \E name \in {"appenduid", "appendcookie"} :
+       /\ wire' = wire \o TrailField(role, name)
+       /\ mut' = Mut(IF mut.kind # "replay" THEN name
+                     ELSE IF name = "appenduid" THEN "replay+appenduid" ELSE "replay+appendcookie",
+                     G("trailing", 0, "field"), "-")
+       /\ truth' = [truth EXCEPT !.touched = {"trailing"}]
+
 Network ==
   /\ phase = "encoded"
-  /\ (Deliver \/ Flip \/ AppendJunk \/ Truncate \/ ReplaceUid \/ SwapCookie)
+  /\ (Deliver \/ Flip \/ AppendJunk \/ Truncate \/ ReplaceUid \/ SwapCookie \/ AppendField)
   /\ phase' = "sent"
   /\ UNCHANGED <<role, nf, outcome, ck>>
 
@@ -407,9 +435,9 @@ Network ==
 Expand(o) == IF o = "junk" THEN {"rejected", "panic"} ELSE {o}
 Process ==
   /\ phase = "sent"
-  /\ LET r == Receive(role, wire) IN
+  /\ LET r == Receive(role, nf, wire) IN
      /\ outcome' \in Expand(r.out)
-     /\ ck' = [opened |-> r.opened, key |-> r.key, sc |-> r.sc]
+     /\ ck' = [opened |-> r.opened, key |-> r.key, sc |-> r.sc, cok |-> r.cok]
   /\ phase' = "done"
   /\ UNCHANGED <<role, nf, wire, mut, truth>>
 
@@ -420,13 +448,18 @@ Spec == Init /\ [][Next]_vars
 (* Property section (C10).                                                 *)
 (*                                                                         *)
 (* Authenticated bytes = "the header and extension bytes that precede" the *)
-(* authenticator; plus the nonce and the ciphertext.  The authenticator's  *)
-(* own header, its two length fields, padding and bytes after the packet   *)
+(* authenticator; plus the nonce and the ciphertext - and the two length   *)
+(* fields that say what the nonce and the ciphertext ARE ("every           *)
+(* single-field mutation (including length fields)").  The authenticator's *)
+(* own extension header (type, Length), padding and bytes after the packet *)
 (* are not covered by the statement (the spec predicts what the code does  *)
-(* with them, the property does not judge it).                             *)
+(* with them, the property does not judge it) - except that nothing which  *)
+(* follows the authenticator may be taken over (AuthenticOnly), and that a *)
+(* response to a different request stays one whatever is appended to it.   *)
 (***************************************************************************)
-AuthRegions == {"ntpHeader", "uidField", "cookieField", "placeholderField", "nonce", "ciphertext"}
-Unjudged    == {"authHdr", "nonceLenField", "ctLenField", "noncePad", "ctPad", "trailing"}
+AuthRegions == {"ntpHeader", "uidField", "cookieField", "placeholderField", "nonceLenField", "ctLenField",
+                "nonce", "ciphertext"}
+Unjudged    == {"authHdr", "noncePad", "ctPad", "trailing"}
 
 Observed == phase = "done"
 Pristine == mut.kind = "none"
@@ -452,6 +485,10 @@ Complete ==
 CookieBinding ==
   (Observed /\ ck.opened) => (ck.key = truth.ckey /\ ck.sc = truth.csc)
 
+\* accepted => what is stored / counted is exactly what was authenticated
+AuthenticOnly ==
+  (Observed /\ role \in ServerSide \cup {"resp"} /\ outcome = "accepted") => ck.cok
+
 \* ExportKeys: the two directions never share a key (needed for "different direction is rejected")
 DirectionsDistinct == \A s1, s2 \in {1, 2} : ExportKeys(s1, "c2s") # ExportKeys(s2, "s2c")
 
@@ -465,12 +502,15 @@ TypeOK ==
 
 \* what the specification predicts for a sender-side substitution / whole-field replacement (used by strict trace validation)
 PostWire(rl, n, kind) ==
-  LET w == SenderWire(rl, n, IF kind \in {"swapkey", "swapdir", "foreignkey", "replay"} THEN kind ELSE "none") IN
+  LET w == SenderWire(rl, n, IF kind \in {"swapkey", "swapdir", "foreignkey", "replay"} THEN kind
+                             ELSE IF kind \in {"replay+appenduid", "replay+appendcookie"} THEN "replay" ELSE "none") IN
   IF kind = "replaceuid"
   THEN [i \in 1 .. Len(w) |-> IF i \in (UidBodyAt + 1) .. (UidBodyAt + UidCells) THEN Uid(2)[i - UidBodyAt] ELSE w[i]]
   ELSE IF kind = "swapcookie"
   THEN LET other == EncCookie(1, Provider[1], 8, SC(2)) at == NtpCells + 2 + UidCells + 2
        IN [i \in 1 .. Len(w) |-> IF i \in (at + 1) .. (at + CookieLen) THEN other[i - at] ELSE w[i]]
+  ELSE IF kind \in {"appenduid", "replay+appenduid"} THEN w \o TrailField(rl, "appenduid")
+  ELSE IF kind \in {"appendcookie", "replay+appendcookie"} THEN w \o TrailField(rl, "appendcookie")
   ELSE w
-Predict(rl, n, kind) == Receive(rl, PostWire(rl, n, kind))
+Predict(rl, n, kind) == Receive(rl, n, PostWire(rl, n, kind))
 =============================================================================
